@@ -15,8 +15,12 @@
   * `timeouts now`       `process_blocked_timeouts` with `Instant::now() = now`;
   * `hangup c`           the peer closes its socket (nothing happens inside the server);
   * `reap c`             `process_connection(c)` reads EOF and `cleanup_connections` drops the connection and
-                         unregisters it from every registry — reachable only when `c` is NOT blocked,
-                         because `process_connections` never reads a blocked connection.
+                         unregisters it from every registry — for a blocked `c` only when the hang-up probe of
+                         `process_connections` exists (`noticeBlockedHangup`) and sees the end-of-file (`probeSees`);
+  * `kill c`             `CLIENT KILL` of `c`, handled in the batch of another connection: `c` is `Closing` at once (not
+                         blocked any more, nothing is written to it), but stays registered until `reap c`;
+  * `hangupDirty c`      the peer writes bytes and then closes: while `c` is blocked nobody reads them, and a probe that
+                         only peeks (`probeReadsInput` off) sees them instead of the end-of-file behind them.
 
   Representation choices (validated by the correspondence run, lib/c13.py):
   * the per-database `HashMap<key, VecDeque<BlockedClient>>` is ONE flat list of `(key, waiter)` in
@@ -574,6 +578,11 @@ def calmReg (s : State) : Bool :=
       once (`noticeBlockedHangup`, `wakeChecksClient`), and then no batch is processed between the hang-up and that
       probe (`reap`) — this window is all that stays excluded (with `wakeChecksClient` the machine conserves there too,
       `wake_client` peeking at the socket first, but the proof's invariant assumes calm batches);
+    * behind bytes it has written (`hangupDirty`) only when that probe also reads the pending input (`probeReadsInput`);
+    * a blocked client is not killed (`kill`): between the CLIENT KILL and the end of that loop iteration it is registered
+      without being blocked, which the invariant (`registry ↔ blocked`) does not allow — what the machine does in that
+      window is covered by the statements that hold for EVERY history (accounting, FIFO, `wake_queue_empty_always`,
+      `exec_atomic_holds`) and by the witnesses of Props/C13.lean;
     * batches as above. -/
 def eventOkF (q : Quirks) (s : State) : Event → Bool
   | .conn c now cmds =>
